@@ -51,6 +51,9 @@ def annotation(d):
         return PRIMS[k]
     if k == 'any':
         return Any
+    if k == 'crule':
+        # a constraint-only Rule (no source type)
+        return type('CRule', (Rule,), dict(d[1]))
     if k == 'rule':
         b = d[1]
         if b[0] in ('list', 'set', 'frozenset', 'vtuple'):
@@ -150,6 +153,8 @@ def conforms(d, v):
         return isinstance(v, PRIMS[k])
     if k == 'any':
         return True
+    if k == 'crule':
+        return check_constraints(d[1], v)
     if k == 'rule':
         return conforms(d[1], v) and check_constraints(d[2], v)
     if k in ('list', 'set', 'frozenset', 'vtuple'):
@@ -180,6 +185,8 @@ def show(d):
     k = d[0]
     if k in PRIMS or k == 'any':
         return k
+    if k == 'crule':
+        return 'Rule%r' % (d[1],)
     if k == 'rule':
         return '%s%r' % (show(d[1]), d[2])
     if k == 'tuple':
